@@ -3,6 +3,7 @@ package main
 // The per-property check driver: gowp check <Cxx> <quick|thorough>
 
 import (
+	"golang.org/x/tools/go/ssa"
 	"encoding/json"
 	"fmt"
 	"os"
@@ -132,6 +133,56 @@ func checkMain(args []string) int {
 	for _, k := range keys {
 		work = append(work, expandKey(k))
 	}
+	// a property also depends on what its functions call: every callee that is
+	// itself under a (non-trusted) contract in /repo is verified with it,
+	// transitively — at a call site only the callee's contract is used, so a
+	// change inside a callee is noticed only if the callee is checked too
+	{
+		seen := map[string]bool{}
+		for _, k := range work {
+			seen[k] = true
+		}
+		queue := append([]string{}, work...)
+		for len(queue) > 0 {
+			k := queue[0]
+			queue = queue[1:]
+			fn := v.findFunc(k)
+			if fn == nil {
+				continue
+			}
+			var callees []*ssa.Function
+			for _, b := range fn.Blocks {
+				for _, in := range b.Instrs {
+					switch t := in.(type) {
+					case ssa.CallInstruction:
+						if f := t.Common().StaticCallee(); f != nil {
+							callees = append(callees, f)
+						}
+					case *ssa.MakeClosure:
+						if f, ok := t.Fn.(*ssa.Function); ok {
+							callees = append(callees, f)
+						}
+					}
+				}
+			}
+			for _, f := range callees {
+				ck := funcKey(f)
+				if seen[ck] {
+					continue
+				}
+				seen[ck] = true
+				con := v.db.Funcs[ck]
+				if con == nil || con.Trusted || len(f.Blocks) == 0 {
+					continue
+				}
+				if !strings.HasPrefix(ck, "github.com/jrhy/s3db") {
+					continue
+				}
+				work = append(work, ck)
+				queue = append(queue, ck)
+			}
+		}
+	}
 	for _, l := range lemmas {
 		work = append(work, "lemma:"+l)
 	}
@@ -259,8 +310,11 @@ func checkMain(args []string) int {
 	}
 
 	open := map[string]Finding{}
+	// an open finding is a fact about an obligation of the code: whichever property's
+	// check meets that obligation (a function can serve several properties, and
+	// callees are verified with their callers) reports it as known
 	for _, f := range ff.Findings {
-		if f.Property == prop && f.Status == "open" {
+		if f.Status == "open" {
 			open[f.Obligation] = f
 		}
 	}
